@@ -4,7 +4,7 @@
 //!
 //! @funcs gpos::forall_base_mark_glyph_pairs, gpos::forall_mark_mark_glyph_pairs, gpos::cursivepos, gpos::gpos_lookup_cursivepos, gpos::pairpos, gpos::gpos_lookup_pairpos, gpos::markligpos, gpos::gpos_lookup_markligpos, MarkLigPos::{read_dep, apply}, LigatureArray::read_dep, LigatureAttach::read_dep, ComponentRecord::read_dep, MarkArray::read, Adjust::apply, Placement::combine_distance, CursivePos::{read_dep, apply}, PairPos::{read_dep, apply}
 //! @stub ReadScope::read_cache -> the same read without memoisation (util::stub_read_cache); std RandomState::new -> constant state
-//! @out gpos::apply / gpos_apply_lookup (lookup cache), the lookup-flag filtering of pairs (find_first / find_next are decided under C04), context positioning, glyph_positions; runs longer than 4 glyphs
+//! @out gpos::apply / gpos_apply_lookup (lookup cache), the lookup-flag filtering of pairs (find_first / find_next are decided under C04), context positioning, glyph_positions; runs longer than 4 (mark-to-base) / 3 (mark-to-mark) glyphs
 
 use crate::util::*;
 use allsorts::binary::read::ReadScope;
@@ -76,26 +76,22 @@ fn c05_base_mark_pairs() {
 
 /// Mark-to-mark lookups offer (mark, later mark) pairs within one unbroken run of marks, and only
 /// when both belong to the same ligature component or one of them is itself a ligature.
-// @bound runs of 4 glyphs with every mark / non-mark pattern, ligature component numbers in 0..2 and ligature flags symbolic
-#[kani::proof]
-#[kani::unwind(8)]
-fn c05_mark_mark_pairs() {
-    let marks: [bool; 4] = kani::any();
-    let comp: [u16; 4] = kani::any();
-    let lig: [bool; 4] = kani::any();
-    kani::assume(comp[0] < 3 && comp[1] < 3 && comp[2] < 3 && comp[3] < 3);
+fn mark_mark_pairs(any_ligature: bool) {
+    let marks: [bool; 3] = kani::any();
+    let comp: [u16; 3] = kani::any();
+    let lig: [bool; 3] = if any_ligature { kani::any() } else { [false; 3] };
+    kani::assume(comp[0] < 2 && comp[1] < 2 && comp[2] < 2);
     let mut infos = [
         hook::info(glyph(1, comp[0], lig[0]), marks[0]),
         hook::info(glyph(2, comp[1], lig[1]), marks[1]),
         hook::info(glyph(3, comp[2], lig[2]), marks[2]),
-        hook::info(glyph(4, comp[3], lig[3]), marks[3]),
     ];
     let (got, n) = hook::mark_mark_glyph_pairs(&mut infos);
     let mut k = 0;
     let mut i = 0;
-    while i < 4 {
+    while i < 3 {
         let mut j = i + 1;
-        while j < 4 {
+        while j < 3 {
             let mut run = marks[i];
             let mut m = i + 1;
             while m <= j {
@@ -111,9 +107,24 @@ fn c05_mark_mark_pairs() {
         i += 1;
     }
     assert!(k == n, "no other pair is offered");
-    kani::cover!(n >= 3);
+    kani::cover!(n == 3);
     kani::cover!(n == 0 && marks[0] && marks[1], "different components, no ligature");
     std::mem::forget(infos);
+}
+
+// @bound runs of 3 glyphs with every mark / non-mark pattern, ligature component numbers in 0..1, no ligature glyphs
+#[kani::proof]
+#[kani::unwind(6)]
+fn c05_mark_mark_pairs() {
+    mark_mark_pairs(false);
+}
+
+// @tier thorough
+// @bound runs of 3 glyphs with every mark / non-mark pattern, ligature component numbers in 0..1 and ligature flags symbolic
+#[kani::proof]
+#[kani::unwind(6)]
+fn c05_mark_mark_pairs_with_ligatures() {
+    mark_mark_pairs(true);
 }
 
 /// Cursive attachment of a pair: the FIRST glyph is placed relative to the second (exit glyph
